@@ -1,4 +1,4 @@
-import DoltVerif.Lemmas.RowMergeSpec
+import DoltVerif.Lemmas.RowMergeTotal
 /-!
 C29 — dolt_merge produces the row-level three-way merge.
 
@@ -97,25 +97,31 @@ def fBase : Table := ⟨[⟨1, .int⟩], [(1, [some (.int 10)]), (2, [some (.int
 def fOurs : Table := ⟨[⟨3, .str⟩, ⟨1, .int⟩], [(1, [none, some (.int 11)]), (2, [none, some (.int 20)])]⟩
 def fTheirs : Table := ⟨[⟨1, .int⟩], [(2, [some (.int 20)])]⟩
 
-/-- "the merge never fails internally … when one side added, dropped or reordered columns" -/
+/-- "the merge never fails internally, including when one side added, dropped or reordered
+columns": for all tables whose schemas give every column id one type (any additions at any
+position, drops and reorders — on either side) and whose rows are well typed -/
 def merge_total_full (pick : VM → Schema) : Prop :=
-  ∀ (base ours theirs : Table),
-    (ours.sch = base.sch ∨ theirs.sch = base.sch) →
+  ∀ (base ours theirs : Table), TypeConsistent base.sch ours.sch theirs.sch →
     tableOk base = true → tableOk ours = true → tableOk theirs = true →
-    ∀ e, mergeTableG pick false base ours theirs = .error e → e = .schemaConflict
+    IsOk (mergeTableG pick false base ours theirs)
 
-/-- with the schema choice dolt made before commit 64cd79f the statement is FALSE: the witness
+/-- **merge_total** holds of the code as fixed by dolt commit 64cd79f -/
+theorem merge_total : merge_total_full leftTypeSchemaInRightDeleteBranch :=
+  fun b o t tc hb ho ht => mergeTable_total false b o t tc hb ho ht
+
+theorem witness_typeConsistent : TypeConsistent fBase.sch fOurs.sch fTheirs.sch := by
+  constructor <;>
+  · intro c hc d hd e
+    simp [fBase, fOurs, fTheirs] at hc hd
+    rcases hc with rfl | rfl <;> rcases hd with rfl | rfl <;> simp_all
+
+/-- with the schema choice dolt made before the fix the statement is FALSE: the witness
 (well-typed rows, one-sided column add) makes the merge panic (index out of range) -/
 theorem merge_total_refuted_before_fix : ¬ merge_total_full leftTypeSchemaBuggy := by
   intro h
   have hw : isErr (mergeTableG leftTypeSchemaBuggy false fBase fOurs fTheirs) .panic = true := by decide
-  cases hm : mergeTableG leftTypeSchemaBuggy false fBase fOurs fTheirs with
-  | ok m => simp [hm, isErr] at hw
-  | error e =>
-    simp [hm, isErr] at hw
-    have := h fBase fOurs fTheirs (Or.inr rfl) (by decide) (by decide) (by decide) e hm
-    subst hw
-    exact absurd this (by decide)
+  obtain ⟨m, hm⟩ := h fBase fOurs fTheirs witness_typeConsistent (by decide) (by decide) (by decide)
+  simp [hm, isErr] at hw
 
 /-- after the fix the same inputs merge: row 1 is a delete/modify conflict, ours' row is kept -/
 theorem merge_total_witness_after_fix :
